@@ -21,7 +21,7 @@ class Contract:
                  modifies=(), returns=None, yields=None, loops=(), ghost=None, inline=False, trusted=False,
                  canaries=(), note='', variants=None, lemmas=(), cls_fields=None, eager_generator=True,
                  name=None, prop=None, allow_exc=(), ensures_exc=None, timeout=None, assume=(),
-                 ghost_post=None, exit_lemmas=(), domains=None, crosscheck=True, inline_at_calls=False, native_gen=None, exit_hints=(), ghost_init=None, globals_=None):
+                 ghost_post=None, exit_lemmas=(), domains=None, crosscheck=True, inline_at_calls=False, native_gen=None, exit_hints=(), ghost_init=None, globals_=None, materialise_ghost=()):
         self.file = file
         self.func = func
         self.params = params or {}
@@ -51,6 +51,7 @@ class Contract:
         self.native_gen = native_gen
         self.globals_ = dict(globals_ or {})     # module-level names replaced by abstract values (AbsMap)
         self.ghost_init = dict(ghost_init or {})   # ghost locals: name -> initial value expression
+        self.materialise_ghost = list(materialise_ghost)
         self.exit_hints = list(exit_hints)   # terms (local-state expressions) offered to e-matching at exit; no logical content
         self.lemmas = list(lemmas)     # extra axioms (strings) assumed at entry: recorded as assumptions
 
